@@ -210,3 +210,53 @@ Section facts.
   Lemma eval_sel_whole src : eval_sel SelWhole src = Some src.
   Proof. reflexivity. Qed.
 End facts.
+
+(* ---------- update methods (C10) ---------- *)
+Section update_facts.
+  Variable e : env.
+  Variable M : table.
+  Notation eval_a := (eval_a e M).
+
+  (* a nil source pointer leaves the target untouched *)
+  Lemma eval_update_nil_source f a old st : eval_a (S f) (AIfNotNil a) VNil old st = Done (old, st).
+  Proof. reflexivity. Qed.
+
+  (* a zero-valued source under a zero guard leaves the field unchanged *)
+  Lemma each_field_zero_guard ea sel a fr src o orr st rs st' s :
+    eval_sel sel src = Some s -> is_zero s = true ->
+    each_field ea (FAssign sel true a :: fr) src (o :: orr) st = Done (rs, st') -> exists rs', rs = o :: rs'.
+  Proof.
+    intros Hs Hz. cbn. rewrite Hs, Hz. cbn.
+    destruct (each_field ea fr src orr st) as [[vs st2]| | |]; cbn; try discriminate.
+    intros [= <- <-]. eauto.
+  Qed.
+
+  (* without a guard the field is whatever the conversion yields *)
+  Lemma each_field_unguarded ea sel a fr src o orr st rs st' s :
+    eval_sel sel src = Some s ->
+    each_field ea (FAssign sel false a :: fr) src (o :: orr) st = Done (rs, st') ->
+    exists v st1 rs', ea a s o st = Done (v, st1) /\ rs = v :: rs'.
+  Proof.
+    intros Hs. cbn. rewrite Hs. cbn.
+    destruct (ea a s o st) as [[v st1]| | |]; cbn; try discriminate.
+    destruct (each_field ea fr src orr st1) as [[vs st2]| | |]; cbn; try discriminate.
+    intros [= <- <-]. eauto.
+  Qed.
+End update_facts.
+
+(* F-C10-1 on the model: a nillable field converted through a (sub-)method call is assigned unconditionally,
+   so a nil source overwrites a non-nil target although the nillable category is selected *)
+Definition f_c10_1_table : table :=
+  [ {| g_name := []; g_src := TPtr (TBasic 2); g_tgt := TPtr (TBasic 2); g_explicit := false; g_dirty := false; g_update := false;
+       g_conf := {| m_common := {| c_WrapErrors := false; c_WrapErrorsUsing := []; c_IgnoreUnexported := false; c_IgnoreBasicZeroValueField := true;
+                                    c_IgnoreStructZeroValueField := true; c_IgnoreNillableZeroValueField := true; c_MatchIgnoreCase := false;
+                                    c_IgnoreMissing := false; c_SkipCopySameType := false; c_UseZeroValueOnPointerInconsistency := false;
+                                    c_UseUnderlyingTypeMethods := false; c_DefaultUpdate := false; c_Enum_Enabled := true; c_Enum_Unknown := [];
+                                    c_ArgContextRegex := [] |};
+                    m_fields := []; m_automap := []; m_raw_field_settings := false; m_UpdateTarget := false; m_constructor := None |};
+       g_origin := []; g_body := Some (BVal (POfAssign (TPtr (TBasic 2)) (APtr PId))) |} ].
+Lemma zero_skip_through_call_refuted :
+  eval_a [] f_c10_1_table 5 (AStruct [FAssign (SelPath [(false, 0)] WNone) false (ASet (PCall 0))])
+         (VStruct [VNil]) (VStruct [VPtr 7 (VBasic 1)]) 10
+  = Done (VStruct [VNil], 10).
+Proof. vm_compute. reflexivity. Qed.
